@@ -87,6 +87,24 @@ pub fn poly_case(cx: &mut Ctx, n: u64, case: &Value) {
             let mut dup = e.0.clone();
             let k = (n as usize + ei) % (dup.len() - 1);
             dup.insert(k, dup[k]);
+            // the other methods of the Winding trait on this ring: is_cw / is_ccw, points_cw / points_ccw (the ring or its reverse),
+            // make_cw_winding / make_ccw_winding / make_winding_order (in place), clone_to_winding_order
+            {
+                let fwd: Vec<Coord<f64>> = e.0.clone();
+                let bwd: Vec<Coord<f64>> = e.0.iter().rev().cloned().collect();
+                let (cw_seq, ccw_seq) = if e_ccw { (&bwd, &fwd) } else { (&fwd, &bwd) };
+                let ok = e.is_ccw() == e_ccw && e.is_cw() != e_ccw
+                    && e.points_cw().map(|p| p.0).collect::<Vec<_>>() == *cw_seq && e.points_ccw().map(|p| p.0).collect::<Vec<_>>() == *ccw_seq;
+                let mut m1 = e.clone(); m1.make_cw_winding();
+                let mut m2 = e.clone(); m2.make_ccw_winding();
+                let mut m3 = e.clone(); m3.make_winding_order(WindingOrder::Clockwise);
+                let mut m4 = e.clone(); m4.make_winding_order(WindingOrder::CounterClockwise);
+                let ok2 = m1.0 == *cw_seq && m2.0 == *ccw_seq && m3.0 == *cw_seq && m4.0 == *ccw_seq
+                    && e.clone_to_winding_order(WindingOrder::Clockwise).0 == *cw_seq && e.clone_to_winding_order(WindingOrder::CounterClockwise).0 == *ccw_seq;
+                if ok && ok2 { cx.ok("winding_trait_methods"); } else {
+                    cx.bad("C05", "winding_trait_methods", case, json!({"what": format!("shell variant {ei}"), "is_ccw": e.is_ccw(), "is_cw": e.is_cw(), "iterators_ok": ok, "mutators_ok": ok2}));
+                }
+            }
             // more repetition: every vertex three times; the closing vertex twice more; the first vertex twice more
             let tripled = LineString::new(e.0.iter().flat_map(|c| [*c, *c, *c]).collect());
             let mut closed_thrice = e.0.clone();
